@@ -241,15 +241,26 @@ def tokenizer_redispatch_bounded(mir, fns):
     # the dispatcher: the member called by all other members
     cg = mir.callgraph()
     disp = [f for f in fns if all(f.key in cg.get(g.key, ()) for g in fns if g.key != f.key)]
+    relayed = []
     if len(disp) != 1:
-        return False, "no single dispatcher in the cycle"
+        # handlers may re-dispatch through a shared relay (`flush; dispatch`): the dispatcher is then the member that
+        # calls the most members; everyone else calls it directly or calls only a member that does
+        ranked = sorted(fns, key=lambda f: -len([k for k in cg.get(f.key, ()) if k in keys]))
+        d0 = ranked[0]
+        direct0 = [h for h in fns if h.key != d0.key and d0.key in cg.get(h.key, ())]
+        rest0 = [h for h in fns if h.key != d0.key and h not in direct0]
+        if direct0 and all({k for k in cg.get(h.key, ()) if k in keys} <= {r.key for r in direct0} and {k for k in cg.get(h.key, ()) if k in keys} for h in rest0):
+            disp = [d0]
+            relayed = rest0
+        else:
+            return False, "no single dispatcher in the cycle"
     d = disp[0]
     # handlers the dispatcher calls that are NOT in the cycle never re-dispatch; those in the cycle do.
     # every cyclic handler must call the flush *before* the dispatcher, and the flush must end in the initial state
     cx_initial = None
     for h in fns:
-        if h.key == d.key:
-            continue
+        if h.key == d.key or h in relayed:
+            continue  # (a relayed handler re-dispatches only through a member checked here)
         order = [c for c in h.calls() if c.local]
         names = [c.rkey for c in order]
         if d.key not in names:
@@ -380,7 +391,7 @@ def discharge(mir, cx, fn, ex, cls, kind, bb, obj, desc, args, tests):
             return "D-tref", cx.tref_ok[0] and cx.table_cols_ok[0], "terminal references are defined terminals (%s); table columns are all terminal variants (%s)" % (cx.tref_ok[1], cx.table_cols_ok[1])
         if re.match(r"^Iterator@Iter::position\(slice::iter\(param1\.nonterminals\), ", a0):
             return "D-ntref", cx.ntref_ok[0] and cx.table_cols_ok[0], "nonterminal references are defined nonterminals (%s); table columns are all nonterminals (%s)" % (cx.ntref_ok[1], cx.table_cols_ok[1])
-        if re.match(r"^HashMap::get\(param1\.0\.\w+, .*\.name\)$", a0) or re.match(r"^HashMap::get\(param1\.0\.\w+, param2\.dollarless_name\)$", a0):
+        if re.match(r"^HashMap::get\(param1(\.0)?\.\w+, .*\.name\)$", a0) or re.match(r"^HashMap::get\(param1(\.0)?\.\w+, param2\.dollarless_name\)$", a0):
             return "D-tref", cx.tref_ok[0] and cx.method_map_ok[0], "method-name map is built from all terminal variants (%s); references are defined terminals (%s)" % (cx.method_map_ok[1], cx.tref_ok[1])
         if re.match(r"^TerminalEnum::get_type\(param\d+(\.\w+)*\.terminal_enum, ", a0):
             return "D-tref", cx.tref_ok[0] and cx.get_type_ok[0], "get_type searches all terminal variants by full name (%s); references are defined terminals (%s)" % (cx.get_type_ok[1], cx.tref_ok[1])
